@@ -1922,3 +1922,50 @@ mod tests {
 }
 
 
+
+/// Verification hooks (only compiled with `--cfg inkayaku_verif`): read-only accessors for private tables.
+#[cfg(inkayaku_verif)]
+pub mod verif {
+    use crate::board::precalculated::{BISHOP_MAGICS, BLACK_PAWN_NONMAGICS, KING_NONMAGICS, KNIGHT_NONMAGICS, ROOK_MAGICS, WHITE_PAWN_NONMAGICS};
+    use crate::board::zobrist::Zobrist;
+
+    /// kind: 0 = rook, 1 = bishop. Returns (mask, magic, hash_mask, hash_shift, attacks).
+    pub fn magic(kind: u8, square: usize) -> (u64, u64, u64, u32, &'static [u64]) {
+        if kind == 0 { ROOK_MAGICS[square].verif_parts() } else { BISHOP_MAGICS[square].verif_parts() }
+    }
+
+    /// Table index computed by the magic hash; never reads the attack table.
+    pub fn magic_index(kind: u8, square: usize, occupancy: u64) -> usize {
+        if kind == 0 { ROOK_MAGICS[square].verif_index(occupancy) } else { BISHOP_MAGICS[square].verif_index(occupancy) }
+    }
+
+    /// Bounds-checked lookup: `None` when the index is outside the table.
+    pub fn magic_lookup(kind: u8, square: usize, occupancy: u64) -> Option<u64> {
+        let (_, _, _, _, attacks) = magic(kind, square);
+        attacks.get(magic_index(kind, square, occupancy)).copied()
+    }
+
+    /// kind: 0 = king, 1 = knight, 2 = white pawn, 3 = black pawn.
+    pub fn leaper(kind: u8) -> [u64; 64] {
+        match kind {
+            0 => KING_NONMAGICS,
+            1 => KNIGHT_NONMAGICS,
+            2 => WHITE_PAWN_NONMAGICS,
+            _ => BLACK_PAWN_NONMAGICS,
+        }
+    }
+
+    /// Piece-square key for `piece` in 0..7 (0 is the unused row), `color` in 0..2.
+    pub fn zobrist_piece_square(piece: u64, square: u32, color: u32) -> u64 {
+        Zobrist::piece_square_hash(piece, square, color)
+    }
+
+    pub fn zobrist_en_passant(file: u32) -> u64 {
+        Zobrist::en_passant_square_hash(file)
+    }
+
+    /// (white queen side, white king side, black queen side, black king side, side-to-move key)
+    pub fn zobrist_misc() -> (u64, u64, u64, u64, u64) {
+        (Zobrist::WHITE_QUEEN_CASTLE_HASH, Zobrist::WHITE_KING_CASTLE_HASH, Zobrist::BLACK_QUEEN_CASTLE_HASH, Zobrist::BLACK_KING_CASTLE_HASH, Zobrist::BLACK_TO_MOVE_HASH)
+    }
+}
